@@ -46,6 +46,8 @@ TEXTS = [
     'T154N-R97W Sec 14 NE/4',
     'foo, "bar"\nbaz',
     'T154N-R97W Sec 1: Lot 1 (40.00), Lot 2 (39.50), S/2N/2; Sec 2: ALL',
+    'T154N-R97W Sec 14: NE/4, a\\k\\a "the Johnson tract", Book 12\\Page 40; '
+    "it's 50% of the W/2\t(tab)\r\nSec 15: that part \\ less and except",
 ]
 CONFIGS = ['parse_qq', 'parse_qq,clean_qq', 'parse_qq,sec_colon_cautious',
            'parse_qq,segment', '', 'parse_qq,qq_depth.1']
